@@ -114,6 +114,18 @@ LINE_SHAPES = ["@", "-", "@-", "-@", "@@", "--", "@ ", "- ", "@\u00e9", "-\u00e9
                "echo {{{{", "{{'a'}}{{'b'}}", " x", "@ @x", "#!{{''}}", "#! {{''}}", "#!/bin/sh {{''}}", "x \\\n    y", "@x \\\n    @y", "\u00e9\\\n  \u00e9"]
 
 
+ENV_VARS = ["JUST_ALIAS_STYLE", "JUST_CHOOSER", "JUST_COLOR", "JUST_COMMAND_COLOR", "JUST_DRY_RUN", "JUST_DUMP_FORMAT", "JUST_EXPLAIN",
+            "JUST_HIGHLIGHT", "JUST_JUSTFILE", "JUST_LIST_HEADING", "JUST_LIST_PREFIX", "JUST_LIST_SUBMODULES", "JUST_NO_ALIASES", "JUST_NO_DEPS",
+            "JUST_NO_DOTENV", "JUST_NO_HIGHLIGHT", "JUST_ONE", "JUST_QUIET", "JUST_ALLOW_MISSING", "JUST_TIMESTAMP", "JUST_TIMESTAMP_FORMAT",
+            "JUST_UNSORTED", "JUST_UNSTABLE", "JUST_VERBOSE", "JUST_WORKING_DIRECTORY", "JUST_YES", "NO_COLOR", "XDG_CONFIG_HOME", "HOME", "PATH"]
+ENV_ARGVS = [["r"], ["--list"], ["--dump"], ["--choose"], ["--timestamp", "r"], ["--evaluate"], ["--summary"], ["m::r"], ["--global-justfile", "--list"]]
+PLAIN_ARGVS = [["--changelog"], ["--man"], ["--init"], ["--edit"], ["--choose"], ["--help"], ["--version"], ["-h"], ["-V"], ["--completions", "bash"],
+               ["--completions", "zsh"], ["--completions", "fish"], ["--completions", "powershell"], ["--completions", "elvish"], ["--completions", "nushell"],
+               ["--dump", "--dump-format", "json"], ["--list", "--list-submodules"], ["--list", "--unsorted"], ["--no-deps", "r"], ["--no-aliases", "--list"],
+               ["--groups"], ["--variables"], ["--summary"], ["--unstable", "--fmt", "--check"], ["--one", "r", "hidden"], ["--explain", "r"],
+               ["--highlight", "r"], ["--no-highlight", "r"], ["--yes", "r"], ["--dry-run", "--verbose", "--verbose", "r"], ["--quiet", "r"]]
+
+
 def run_cli_case(case):
     """case: dict(files, argv, stdin)"""
     with C.scratch("c11") as d:
@@ -122,7 +134,8 @@ def run_cli_case(case):
             os.makedirs(os.path.dirname(p), exist_ok=True)
             with open(p, "wb") as f:
                 f.write(text.encode("utf-8", "surrogateescape"))
-        env = {"VSH_LOG": os.path.join(d, "vsh.log")}
+        env = {"VSH_LOG": os.path.join(d, "vsh.log"), "EDITOR": C.VSH, "VISUAL": C.VSH}
+        env.update(case.get("env") or {})
         rc, out, err = C.run_just(case["argv"], d, env=env, timeout=20)
         text = (out + err).decode("utf-8", "replace")
         if rc is None:
@@ -248,6 +261,15 @@ def run(report):
             it = iter(combo)
             argv = [a.replace("@", next(it)) if "@" in a else a for a in t]
             cases.append({"kind": "cli", "files": base_files, "argv": argv})
+    for argv in PLAIN_ARGVS:
+        cases.append({"kind": "cli", "files": base_files, "argv": argv})
+    # environment variables with hostile values
+    for var in ENV_VARS:
+        vals = ops if thorough else [o for o in ops if len(o) < 100][::2] + ["x" * 5000]
+        for val in vals:
+            if var in ("PATH", "HOME") and val == "":
+                continue
+            cases.append({"kind": "cli", "files": base_files, "argv": rng.choice(ENV_ARGVS), "env": {var: val}})
     n_cli = len(cases)
     # functions with hostile arguments
     functions, _, _, _, _ = E.extract()
@@ -296,11 +318,11 @@ def run(report):
         elif c["kind"].startswith("fn:"):
             sig = "c11-%s:%s" % (kind.split()[0], c["kind"])
         elif c["kind"] == "cli":
-            sig = "c11-%s:cli:%s" % (kind.split()[0], " ".join(a for a in c["argv"] if a.startswith("--"))[:60])
+            sig = "c11-%s:cli:%s%s" % (kind.split()[0], " ".join(a for a in c["argv"] if a.startswith("--"))[:60], ":" + ",".join(c["env"]) if c.get("env") else "")
         else:
             sig = "c11-%s:%s" % (kind.split()[0], c["kind"])
-        report.failure(sig, "%s: just %r -> %s" % (kind, c["argv"], text[-300:]),
-                       {"op": "cli", "files": c["files"], "argv": c["argv"], "observed": kind, "output": text})
+        report.failure(sig, "%s: just %r env=%r -> %s" % (kind, c["argv"], c.get("env"), text[-300:]),
+                       {"op": "cli", "files": c["files"], "argv": c["argv"], "env": c.get("env"), "observed": kind, "output": text})
     stats.update({"s2_cli_cases": n_cli, "s2_function_cases": n_fn, "s2_parameter_cases": n_par, "s2_line_cases": n_line,
                   "s2_functions": len(functions or [])})
 
@@ -323,7 +345,7 @@ def replay(report, path):
     C.build_vsh()
     report.coverage.update({"obligations": 1, "discharged": 1, "checker_cmd": "replay", "trusted_base": []})
     if rp.get("op") == "cli":
-        kind, text = run_cli_case({"files": rp["files"], "argv": rp["argv"]})
+        kind, text = run_cli_case({"files": rp["files"], "argv": rp["argv"], "env": rp.get("env")})
         print(kind, text)
         if kind:
             report.failure(body["signature"], "replay still fails: " + kind, rp)
